@@ -47,7 +47,19 @@ func inner(k int) nodeh.TreeSpec {
 	return nd(0, mid)
 }
 
-var kindName = map[int]string{nodeh.TH1: "handler-single", nodeh.THA: "handler-agg", nodeh.TC1: "channel-single",
+// deep: 0 - 1 - 2 - {3..2+k}: the instance sits on node 2, whose parent (1) is NOT the root
+func deep(k int) nodeh.TreeSpec {
+	low := nodeh.TreeSpec{Srv: 2}
+	for i := 3; i <= k+2; i++ {
+		low.Ch = append(low.Ch, leaf(i))
+	}
+	return nd(0, nd(1, low))
+}
+
+// deeper: 0 - 1 - 2 - 3 - {4,5}: the instance sits on node 3 (depth 3)
+func deeper() nodeh.TreeSpec { return nd(0, nd(1, nd(2, nd(3, leaf(4), leaf(5))))) }
+
+var kindName = map[int]string{nodeh.TCB1: "channel-agg-cap1", nodeh.TCB2: "channel-agg-cap2",nodeh.TH1: "handler-single", nodeh.THA: "handler-agg", nodeh.TC1: "channel-single",
 	nodeh.TCA: "channel-agg", nodeh.THA2: "handler-agg2", nodeh.TCA2: "channel-agg2"}
 
 // builder collects messages; every message is followed by a fence to the same instance.
@@ -188,6 +200,57 @@ func generate(rng *rand.Rand, tier string) []interface{} {
 			}
 		}
 	}
+	// ---- 2b. the same at depth >= 2: the parent is not the root; the aggregated type also travels DOWN the tree
+	for k := 1; k <= 3; k++ {
+		ch := seq(3, k+2)
+		for _, typ := range aggTypes {
+			cl := fmt.Sprintf("rounds+parent-deep/fanout-%d/%s", k, kindName[typ])
+			for _, p1 := range perms(ch) {
+				ins = append(ins, roundsFamily(rng, deep(k), 2, 1, typ, [][]int{p1}, true, cl))
+				ins = append(ins, roundsFamily(rng, deep(k), 2, 1, typ, [][]int{p1, shuffled(rng, ch)}, true, cl))
+				ins = append(ins, roundsFamily(rng, deep(k), 2, 1, typ, [][]int{shuffled(rng, ch), p1, shuffled(rng, ch)}, true, cl))
+			}
+		}
+	}
+	for _, typ := range aggTypes {
+		for _, p1 := range perms([]int{4, 5}) {
+			ins = append(ins, roundsFamily(rng, deeper(), 3, 2, typ, [][]int{p1, shuffled(rng, []int{4, 5})}, true,
+				fmt.Sprintf("rounds+parent-deep/fanout-2/%s", kindName[typ])))
+		}
+	}
+	// ---- 2c. the protocol is BEHIND with reading its aggregated channel: several complete rounds are
+	// handed over before the first read (capacity 1, 2 and 100)
+	for k := 1; k <= 3; k++ {
+		for _, tc := range []struct{ typ, cap int }{{nodeh.TCB1, 1}, {nodeh.TCB2, 2}, {nodeh.TCA, 100}} {
+			for rounds := 2; rounds <= 5; rounds++ {
+				reps := 2
+				if thorough {
+					reps = 8
+				}
+				for rep := 0; rep < reps; rep++ {
+					b := newBuilder(rng, 0)
+					for r := 0; r < rounds; r++ {
+						for _, c := range shuffled(rng, seq(1, k)) {
+							route, peer := "process", c
+							if rng.Intn(3) == 0 {
+								route, peer = "transmit", nodeh.PeerNone
+							}
+							b.msgs = append(b.msgs, nodeh.Msg{Inst: 0, From: c, Peer: peer, Wire: -1, Type: tc.typ, Payload: b.payload, Route: route})
+							b.payload++
+						}
+					}
+					b.msgs = append(b.msgs, nodeh.Msg{Inst: 0, From: 0, Peer: nodeh.PeerNone, Wire: -1, Type: nodeh.TFence, Payload: b.fence, Route: "transmit"})
+					in := b.scenario(star(k), fmt.Sprintf("backlog/cap-%d/fanout-%d", tc.cap, k))
+					in.Backlog = true
+					in.BlockAt = rounds * k
+					if rounds > tc.cap {
+						in.BlockAt = (tc.cap + 1) * k // the unchanged code waits here, in the channel send, for the reader
+					}
+					ins = append(ins, in)
+				}
+			}
+		}
+	}
 	// ---- 3. several aggregated types (and single ones) in flight at once
 	nm := 150
 	if thorough {
@@ -199,8 +262,11 @@ func generate(rng *rand.Rand, tier string) []interface{} {
 		tree, me, parent, ch := star(k), 0, -1, seq(1, k)
 		if useInner {
 			tree, me, parent, ch = inner(k), 1, 0, seq(2, k+1)
+			if rng.Intn(2) == 0 {
+				tree, me, parent, ch = deep(k), 2, 1, seq(3, k+2)
+			}
 		}
-		types := shuffled(rng, []int{nodeh.THA, nodeh.TCA, nodeh.THA2, nodeh.TCA2})[:2+rng.Intn(2)]
+		types := shuffled(rng, []int{nodeh.THA, nodeh.TCA, nodeh.THA2, nodeh.TCA2, nodeh.TCB1, nodeh.TCB2})[:2+rng.Intn(2)]
 		// per type: the remaining senders of its rounds, round after round
 		type stream struct {
 			typ  int
@@ -220,7 +286,7 @@ func generate(rng *rand.Rand, tier string) []interface{} {
 			case r == 0: // a single-type message from a child
 				b.send(0, ch[rng.Intn(len(ch))], []int{nodeh.TH1, nodeh.TC1}[rng.Intn(2)])
 			case r == 1 && parent >= 0: // anything from the parent
-				b.send(0, parent, []int{nodeh.TH1, nodeh.TC1, nodeh.THA, nodeh.TCA, nodeh.THA2, nodeh.TCA2}[rng.Intn(6)])
+				b.send(0, parent, []int{nodeh.TH1, nodeh.TC1, nodeh.THA, nodeh.TCA, nodeh.THA2, nodeh.TCA2, nodeh.TCB1}[rng.Intn(7)])
 			default:
 				j := rng.Intn(len(streams))
 				s := streams[j]
@@ -322,6 +388,7 @@ func run(raw json.RawMessage) lib.Case {
 		}
 	}
 	res := pool.Run(&in.Scenario)
+	// only a malformed scenario (a generator / replay-file error the implementation cannot cause) is dropped
 	if res.Status == "error" || len(res.Nodes) == 0 || len(res.FromIDs) != len(in.Msgs) {
 		fmt.Fprintln(os.Stderr, "discarded scenario:", res.Status, res.Detail)
 		return lib.Case{Discard: true}
@@ -357,7 +424,7 @@ func main() {
 		Prop:   "C04",
 		Import: "Onet.Corr.C04",
 		Rule: "all arrival orders of the children's messages for fan-out 1..4 (1 round; 2 rounds: full product up to fan-out 3, sampled for 4; 3 rounds sampled), " +
-			"fan-out 5 sampled; handler and channel registrations; an inner node with the parent's messages in between; 2-3 aggregated types plus single types in flight; " +
+			"fan-out 5 sampled; handler and channel registrations; an inner node (depth 1, and depth 2-3 where the parent is not the root) with the parent's messages of the same aggregated type in between; aggregated channels of capacity 1, 2 and 100 with 2-5 complete rounds handed over BEFORE the protocol reads (the unchanged code waits in the channel send); 2-3 aggregated types plus single types in flight; " +
 			"two instances on one node interleaved; seeded scenarios outside the hypothesis (unseparated rounds, non-child senders) for the model comparison only; " +
 			"a fence message through the same instance after every injected message; non-trivial = an aggregated batch was delivered",
 		Shard:    120,
